@@ -519,7 +519,14 @@ func c13GenScenario(r *rng, srcs []*moduleSource) *C13Scenario {
 		sc.Start = "func-printed"
 	}
 	nt := 2 + r.intn(3)
-	if sc.Start == "printed" {
+	crowd := r.chance(1, 8)
+	if crowd {
+		// A crowd of printers (bounded resources such as semaphores, worker pools
+		// sized from the number of callers, per-P caches only show under many
+		// simultaneous callers).
+		nt = 8 + r.intn(9)
+	}
+	if sc.Start == "printed" && !crowd {
 		for i := 0; i < nt; i++ {
 			var calls []Call
 			for j := 0; j < 1+r.intn(3); j++ {
@@ -535,12 +542,23 @@ func c13GenScenario(r *rng, srcs []*moduleSource) *C13Scenario {
 		// Same receiver, same calls for every task.
 		var calls []Call
 		k := []int{0, 0, 0, 1, 17, 2, 2, 3}[r.intn(8)]
+		if crowd {
+			k = []int{0, 0, 1, 17, 2}[r.intn(5)]
+		}
 		if sc.Start == "func-printed" {
 			k = []int{0, 0, 1, 17}[r.intn(4)]
 		}
+		if strings.HasSuffix(sc.Module, ":lit") && k == 3 {
+			// Literal-built instructions compute their cached Typ at the first
+			// Type() query; module and function printers do that under Func.mu,
+			// a block printer does not (known finding K1, pinned by a tape of its
+			// own): from a state in which types may still be unset, literal-built
+			// modules are printed through the module and the function only.
+			k = 2
+		}
 		c := Call{K: k, A: r.intn(64), B: r.intn(64), C: r.intn(64)}
 		calls = append(calls, c)
-		if r.chance(1, 3) {
+		if r.chance(1, 3) && !crowd {
 			calls = append(calls, c)
 		}
 		for i := 0; i < nt; i++ {
@@ -633,10 +651,19 @@ func c13Count(sum *Summary, sc *C13Scenario, o *c13Outcome) {
 	sum.Counters["runs/start="+sc.Start]++
 	if strings.HasPrefix(sc.Module, "gen:") {
 		sum.Counters["runs/constructed module"]++
+		if strings.HasSuffix(sc.Module, ":lit") {
+			sum.Counters["runs/constructed module with literal-built instructions (Typ unset)"]++
+		}
 	} else {
 		sum.Counters["runs/parsed module"]++
 	}
 	sum.Counters[fmt.Sprintf("runs/%d tasks", len(sc.Tasks))]++
+	if len(sc.Tasks) >= 8 {
+		sum.Probes["8 or more simultaneous printers"]++
+	}
+	if s.ProcQueries > 0 {
+		sum.Counters["runtime.GOMAXPROCS/NumCPU queries answered with the simulated value"] += s.ProcQueries
+	}
 	sum.Counters["statements executed under the scheduler"] += s.Steps
 	sum.Counters["context switches"] += s.Switches
 	sum.Counters["context switches at lock/unlock edges"] += s.LockEdgeSwitches
